@@ -1845,19 +1845,28 @@ static int
 buffer_newline(ESL_BUFFER *bf)
 {
   esl_pos_t nc = bf->n - bf->pos;
+  int       is_newline = FALSE;
   int       status;
 
   if (nc == 0) 
     return eslEOL;	/* no newline, but EOF is as good as */
-  if (nc >= 1 && bf->mem[bf->pos] == '\n')  
-    { bf->pos += 1; return eslEOL; }
-  if (nc >= 2 && memcmp(bf->mem + bf->pos, "\r\n", 2) == 0)
-    { bf->pos += 2; return eslEOL; }
+
+  /* If a CR is the last byte loaded, load more so we can see whether a LF follows it. */
+  if (nc == 1 && bf->mem[bf->pos] == '\r')
+    {
+      status = buffer_refill(bf, 1);
+      if (status != eslEOF && status != eslOK) return status;
+      nc = bf->n - bf->pos;
+    }
+
+  if      (nc >= 1 && bf->mem[bf->pos] == '\n')                    { bf->pos += 1; is_newline = TRUE; }
+  else if (nc >= 2 && memcmp(bf->mem + bf->pos, "\r\n", 2) == 0)  { bf->pos += 2; is_newline = TRUE; }
   
+  /* Restore the <pagesize> guarantee, also when we have just stepped past a newline. */
   status = buffer_refill(bf, 0);
   if (status != eslEOF && status != eslOK) return status;
 
-  return eslOK;
+  return (is_newline ? eslEOL : eslOK);
 }
 
 /* bf->pos is sitting on a non-sep, non-newline character, starting
